@@ -369,6 +369,57 @@ def only_validated_stores(rep, src, rule):
         rep.ok(rule, 'deb822', 'stores into the value table', '%d store(s) into %s, all in Deb822Dict.__setitem__' % (len(writers), table))
 
 
+def r4_settings_by_position(rep, src):
+    """the parser setting of the statement ("the setting under which whitespace-only lines do not end a paragraph") reaches every pass
+    over the text however the caller hands it over.  The classes for signed documents wrap the paragraph constructor with
+    `def __init__(self, *args, **kwargs)` and look at some of its arguments themselves: every argument such a wrapper reads from
+    `kwargs` by name is also read at the position the wrapped constructor gives it (`args[i]`, or a test on `len(args)` that separates
+    i from i + 1) -- otherwise the same call behaves differently with the argument passed by position"""
+    mod = src.mod('deb822')
+    base = mod.funcs.get('Deb822.__init__')
+    if base is None:
+        raise AnalysisError('deb822:Deb822.__init__ not found')
+    names = [a.arg for a in base.node.args.args][1:]
+    n = 0
+    for q, f in sorted(mod.funcs.items()):
+        if not q.endswith('.__init__') or f.node.args.vararg is None or f.node.args.kwarg is None or f.cls is None:
+            continue
+        if 'Deb822' not in mod.mro(f.cls):
+            continue
+        va, kw = f.node.args.vararg.arg, f.node.args.kwarg.arg
+        read = {}
+        for c in walk_no_nested(f.node):
+            key = None
+            if isinstance(c, ast.Call) and isinstance(c.func, ast.Attribute) and c.func.attr in ('get', 'pop') and norm(c.func.value) == kw and c.args and isinstance(c.args[0], ast.Constant):
+                key = c.args[0].value
+            elif isinstance(c, ast.Subscript) and norm(c.value) == kw and isinstance(c.slice, ast.Constant) and isinstance(c.ctx, ast.Load):
+                key = c.slice.value
+            if isinstance(key, str) and key in names:
+                read.setdefault(key, c)
+        positions = set()
+        for c in walk_no_nested(f.node):
+            if isinstance(c, ast.Subscript) and norm(c.value) == va and isinstance(c.slice, ast.Constant) and isinstance(c.slice.value, int):
+                positions.add(c.slice.value)
+            if isinstance(c, ast.Compare) and len(c.ops) == 1 and isinstance(c.left, ast.Call) and norm(c.left.func) == 'len' and [norm(a_) for a_ in c.left.args] == [va] \
+                    and isinstance(c.comparators[0], ast.Constant) and isinstance(c.comparators[0].value, int):
+                k_ = c.comparators[0].value
+                # len(args) < k / >= k separates position k - 1 from k;  len(args) > k / <= k separates k from k + 1
+                positions.add(k_ - 1 if isinstance(c.ops[0], (ast.Lt, ast.GtE)) else k_)
+        for key, c in sorted(read.items()):
+            i = names.index(key)
+            n += 1
+            what = '%s reads `%s` by name and by position' % (q, key)
+            if i in positions:
+                rep.ok('C08.R4', f.site, what, 'position %d is looked at as well' % i)
+            else:
+                rep.fail('C08.R4', f.site, what, 'the wrapper takes `%s` from %s only; passed by position (argument %d of %s) it is handed on to the paragraph constructor but not seen by '
+                         'the wrapper\'s own pass over the text: %s(lines, None, None, "utf-8", {"whitespace-separates-paragraphs": False}) cuts a value with a whitespace-only '
+                         'continuation line -- the rest of the value and every later field are lost -- while the same call with strict= works'
+                         % (key, kw, i + 1, base.qual, f.cls), where='%s:%d' % (mod.relpath, c.lineno))
+    if n < 2:
+        raise AnalysisError('fewer than two arguments read by name in *args wrappers (%d)' % n)
+
+
 def check(src, rep, tier):
     rep.explanation = ('C08: the language of values accepted by Deb822.validate_input is built from its raise-guards; the dump '
                        'template is extracted from _dump_format (two forms); the resulting text language is split into reader '
@@ -384,3 +435,5 @@ def check(src, rep, tier):
     rep.guard('C08.R2', r2_same_line_notion, src, M)
     rep.guard('C08.R1', r1_no_injection, src, M)
     rep.guard('C08.R3', r3_check_before_commit, src, M)
+    rep.need('C08.R4', 2)
+    rep.guard('C08.R4', r4_settings_by_position, src)
